@@ -49,7 +49,7 @@ func (r *Run) transparentCallee(info *types.Info, c *ast.CallExpr) *FuncDecl {
 }
 
 func (r *Run) callSeqRec(fd *FuncDecl, onPath map[*FuncDecl]bool, depth int) []string {
-	if onPath[fd] || depth > 4 {
+	if onPath[fd] || depth > 8 {
 		return nil
 	}
 	onPath[fd] = true
@@ -63,9 +63,13 @@ func (r *Run) callSeqRec(fd *FuncDecl, onPath map[*FuncDecl]bool, depth int) []s
 			call   *ast.CallExpr
 		}
 		var items []item
+		spawned := map[*ast.CallExpr]bool{}
 		ast.Inspect(u.Body, func(n ast.Node) bool {
 			if lit, ok := n.(*ast.FuncLit); ok && lit != u.Lit {
 				return false
+			}
+			if gs, ok := n.(*ast.GoStmt); ok {
+				spawned[gs.Call] = true // what a spawned goroutine does is not part of this function's calls
 			}
 			c, ok := n.(*ast.CallExpr)
 			if !ok {
@@ -91,7 +95,11 @@ func (r *Run) callSeqRec(fd *FuncDecl, onPath map[*FuncDecl]bool, depth int) []s
 				k += " @" + strings.Join(lc, " / ")
 			}
 			// evaluation order: arguments before the call itself → order by end position
-			items = append(items, item{int(c.End()), k, r.transparentCallee(u.Info, c), c})
+			var helper *FuncDecl
+			if !spawned[c] {
+				helper = r.transparentCallee(u.Info, c)
+			}
+			items = append(items, item{int(c.End()), k, helper, c})
 			return true
 		})
 		sort.SliceStable(items, func(i, j int) bool { return items[i].pos < items[j].pos })
@@ -110,6 +118,9 @@ func (r *Run) callSeqRec(fd *FuncDecl, onPath map[*FuncDecl]bool, depth int) []s
 			inl := r.callSeqRec(it.helper, onPath, depth+1)
 			if len(inl) == 0 {
 				out = append(out, it.text)
+			} else {
+				// remembered so that a reference taken when the helper made no calls of its own is still met
+				out = append(out, "≈"+it.text)
 			}
 			for _, op := range inl {
 				out = append(out, mergeContexts(ps.apply(op), sfx, ""))
@@ -321,9 +332,12 @@ func (r *Run) CheckCallSeq(rule, name string, scope Scope, min int, ordered bool
 		}
 		sort.Strings(ws)
 		for _, c := range ws {
+			if strings.HasPrefix(c, "≈") {
+				continue // expansion marker, not an operation
+			}
 			found := false
 			for _, h := range now {
-				if callCovers(r.normRenamed(c), r.normRenamed(h)) {
+				if callCovers(r.normRenamed(c), r.normRenamed(strings.TrimPrefix(h, "≈"))) {
 					found = true
 					break
 				}
